@@ -37,10 +37,14 @@ fn base(rng: &mut Rng, b: u64) -> ConnScenario {
     client.info_delay_ns = ms(20);
     client.extras.push(crate::client::Extra { after_ack: true, at_ns: ms(5), id: 0x02, body: crate::client::Body::Raw { bytes: b"minecraft:brand\x07vanilla".to_vec() } });
     client.extras.push(crate::client::Extra { after_ack: true, at_ns: ms(10), id: 0x06, body: crate::client::Body::ResourcePack { result: 3 } });
+    // sometimes there is no target, so that the localized Disconnect path runs with whatever locale the client sent
+    let targets = if rng.chance(1, 3) { vec![] } else { vec![crate::services::TargetSpec { id: "t".into(), addr: "10.0.0.5:25565".into(), meta: Default::default() }] };
     let services = Services {
-        discovery: Script::always(Some(0), DiscRes::Targets(vec![crate::services::TargetSpec { id: "t".into(), addr: "10.0.0.5:25565".into(), meta: Default::default() }])),
+        discovery: Script::always(Some(0), DiscRes::Targets(targets)),
         ..Default::default()
     };
+    // odd but well-formed locales
+    client.locale = (*rng.pick(&["de_DE", "de_DE", "", "x", "日本", "en_US_POSIX_and_more"])).to_string();
     ConnScenario {
         seed: rng.next_u64(),
         cfg: ConnCfg { secret, expiry: None, max_frame: None, client_addr },
@@ -116,6 +120,9 @@ fn generate(rng: &mut Rng, index: u64) -> ConnScenario {
     for fi in 0..frames.len() {
         menu.push((fi, 7, 0)); // the client resets the connection right after this frame
     }
+    for k in 0..6 {
+        menu.push((0, 10, k)); // a long run of valid ignorable frames in one burst while the server waits for Client Information
+    }
     let (fi, class, par) = menu[((index / 4) % menu.len() as u64) as usize];
     let f = &frames[fi];
     let len = (f.end - f.start) as usize;
@@ -166,6 +173,13 @@ fn generate(rng: &mut Rng, index: u64) -> ConnScenario {
             let total = max as usize + [1usize, 2, 40][par as usize % 3];
             sc.client.mutations.push(Mutation { frame: fi, op: MutOp::PadTo { total } });
         }
+        10 => {
+            let (count, size) = [(200u32, 50u32), (600, 300), (1500, 700), (3000, 90), (400, 2000), (2500, 401)][par as usize % 6];
+            sc.cfg.max_frame = None;
+            sc.client.flood = Some(crate::client::Flood { at_ns: ms(1), count, size });
+            sc.client.coalesce = true;
+            sc.client.info_delay_ns = secs(2);
+        }
         6 => {
             for _ in 0..par {
                 sc.wplan.push(crate::pipe::WRule::Accept { max: 1_000_000 });
@@ -197,7 +211,7 @@ fn generate(rng: &mut Rng, index: u64) -> ConnScenario {
         }
     }
     // random segmentation on top (never inside the frame whose prefix delivery is being timed)
-    if class != 0 && class != 9 && rng.chance(1, 3) {
+    if class != 0 && class != 9 && class != 10 && rng.chance(1, 3) {
         for _ in 0..rng.range(1, 4) {
             let g = rng.pick(&frames).clone();
             sc.client.cuts.push(Cut { at: rng.range(g.start, g.end - 1), gate: if rng.chance(1, 2) { Gate::Now } else { Gate::Delay { ns: ms(1) } }, spurious: rng.below(3) as u8 });
@@ -286,6 +300,9 @@ pub fn check(sc: &ConnScenario, out: &ConnOutcome, rep: &mut RunReport) {
             _ => {}
         }
     }
+    if sc.client.flood.is_some() && sc.client.mutations.is_empty() && matches!(sc.client.enc, EncVariant::Honest) && sc.wplan.is_empty() && sc.client.intent != 1 && !matches!(out.result.as_str(), "Ok" | "NoTargetFound") {
+        rep.violate("valid_frames_are_consumed", format!("a burst of valid ignorable frames ended the connection with {} {}", out.result, out.result_text));
+    }
     let enc_sent = out.view.sent.iter().any(|s| s.kind == "EncryptionResponse" && !s.mutated);
     match &sc.client.enc {
         _ if !enc_sent || super::c01::is_honest(&sc.client.enc) => {}
@@ -338,7 +355,10 @@ impl Check for C04 {
         }
         let out = run_conn(sc);
         let mut rep = base_report(&out);
-        rep.nontrivial = out.view.sent.iter().any(|s| s.mutated) || !matches!(sc.client.enc, EncVariant::Honest);
+        rep.nontrivial = out.view.sent.iter().any(|s| s.mutated) || !matches!(sc.client.enc, EncVariant::Honest) || sc.client.flood.is_some();
+        if sc.client.flood.is_some() {
+            *rep.faults.entry("burst_of_valid_ignorable_frames".into()).or_insert(0) += 1;
+        }
         let mut h = crate::rng::Fnv(rep.trace_hash);
         h.write_str(&serde_json::to_string(&sc.client.mutations).unwrap_or_default());
         h.write_str(&format!("{:?}", sc.client.enc));
